@@ -18,7 +18,7 @@ CHECK = {
         "tolerance 64 ulp x (8 + 4 x steps) x (E_primary + 2mc^2)",
         "Urban MSC variants use a synthetic transport cross section (lambda_tr = E^2 / 20 MeV^2/cm)",
     ],
-    "bounds": {"extra_roots": "same executions as C05 (shared harness): boundary arrival below / above the tracking cut; MSC with a starved stack and an at-rest deferral",
+    "bounds": {"extra_roots": "same executions as C05 (shared harness): boundary arrival below / above the tracking cut; MSC with a starved stack and an at-rest deferral; e+ primary AT REST at birth (E = 0) alone and as second primary next to a 1 MeV e-; primaries exactly at the ends of the scripted tables (1e4 MeV gamma/e-/e+, 1e-3 MeV gamma); non-zero primary times (2^-31 s, 3*2^-32 s) on the dyadic, table-end, at-rest and all two-primary roots",
                "quick": {"deviations": 2}, "thorough": {"deviations": 3}},
     "parts": [
         {"name": "energy", "harness": "c01_energy", "flavour": "rel",
